@@ -1,0 +1,20 @@
+//go:build verif
+
+package dns_naming
+
+import "github.com/irai/packet"
+
+// VerifNew returns a handler that does not bind to any multicast socket.
+// Verification hook: only compiled with -tags verif.
+func VerifNew(session *packet.Session) *DNSHandler {
+	h := new(DNSHandler)
+	h.session = session
+	h.DNSTable = make(map[string]packet.DNSEntry, 256)
+	h.mdnsCache = make(map[string]cache)
+	return h
+}
+
+// VerifReset restores the package level state to its initial value.
+func VerifReset() {
+	sequence = 1
+}
